@@ -204,7 +204,11 @@ def bddStep (b : BddSt) (l : String) (ws : List String) : Option (List String ×
   -- conjunction of k variables: one model, 2^k - 1 counter-models, k paths to ⊥, one to ⊤, depth k
   | ["qdeep", k] =>
     match k.toNat? with
-    | some k => some ([l, s!"~ models {2 ^ k - 1} 1 paths {k} 1 depth {k}"], b)
+    | some k =>
+      -- near tie: `x0 ∧ ¬(x1 ∧ … ∧ x_{k-1})` has 2^(k-1) - 1 models (fewer than counter-models) for k ≥ 2,
+      -- its negation 2^(k-1) + 1 (more); for k = 2 the first function is x0 ∧ ¬x1: 1 model, 3 counter-models
+      let nt := if 2 ≤ k && k ≤ 64 then "0 1" else "- -"
+      some ([l, s!"~ models {2 ^ k - 1} 1 paths {k} 1 depth {k} neartie-more {nt}"], b)
     | none => some ([l, "~ bad-request"], b)
   | ["dump"] => some ([l, s!"= {dumpTable b.s.nodes}"], b)
   | ["wfcheck", t] =>
